@@ -380,7 +380,7 @@ def group_src(g, lite=False):
                             + call_block(t, m, "", gr_ref, ind))
                     actions.append((f"as_mut({names}) {t.name}::{m.name}", code))
                     code = (f"{ind}let mut c_ = match cast!(g_.take().unwrap() impl {names}) {{ Some(x) => x, None => {{ {refuse.replace('{PATH}', 'cast')} }} }}; fl.casts += 1; holders_extra = 1;\n"
-                            f"{ind}{{\n" + call_block(t, m, "let ow = &mut c_;", gr_ref, ind + "    ") + f"\n{ind}}}\n{ind}holders_extra = 0; g_ = Some(c_.upcast());")
+                            f"{ind}{{\n" + call_block(t, m, "let ow = &mut c_;", gr_ref, ind + "    ") + f"\n{ind}}}\n{ind}holders_extra = 0; g_ = Some({'c_.upcast()' if len(actions) % 2 == 0 else 'c_.into()'});")
                     actions.append((f"cast({names})+upcast {t.name}::{m.name}", code))
                 # final form (terminal)
                 if m.recv == "own":
